@@ -19,8 +19,20 @@ def normalize_stream(b):
     return b"\n".join(ln for ln in b.split(b"\n") if not ln.startswith(VARYING_PREFIXES))
 
 
-def is_buffer_too_small(res):
-    return "does not fit into buffer" in res.stderr or "OverflowError" in res.stderr
+def is_buffer_too_small(res, case=None):
+    """The run failed because a record did not fit into --buffer-size. With `case`: only when the
+    buffer really is smaller than the generator's floor for these records (a shrunk case, say) -
+    otherwise the failure is cutadapt's and must be judged."""
+    if not ("does not fit into buffer" in res.stderr or "OverflowError" in res.stderr):
+        return False
+    if case is None:
+        return True
+    s1, s2 = gen.record_sizes(case)
+    if case["input"]["layout"] == "interleaved":
+        per = [a + b for a, b in zip(s1, s2)]
+    else:
+        per = [max(a, b) for a, b in zip(s1, s2)] if s2 else s1
+    return case["knobs"]["buffer_size"] < 2 * (max(per) if per else 16) + 8
 
 
 def outputs_of(case, res):
@@ -159,7 +171,7 @@ def base_signature(case, violation):
     try:
         for d in destinations(case):
             if len(d["paths"]) == 2 and gen.ext_class(d["paths"][0]) != gen.ext_class(d["paths"][1]):
-                mixed = True
+                mixed = True  # (a pair of /dev/null and a named file is such a pair, too)
     except Exception:
         pass
     return {
@@ -281,6 +293,26 @@ def read_dest(res, dest):
     if len(recs) == 2:
         return fmts[0], recs[0], recs[1]
     return fmts[0], recs[0], None
+
+
+DEVNULL = "/dev/null"
+
+
+def read_dest_ex(res, dest):
+    """
+    Like read_dest, for destinations of which one or both files may be /dev/null:
+    returns (format, r1, r2, observed) with observed in 'both' | 'r1' | 'r2' | 'none'; the
+    records of an unobserved side are None.
+    """
+    paths = dest["paths"]
+    if DEVNULL not in paths:
+        f, r1, r2 = read_dest(res, dest)
+        return f, r1, r2, "both"
+    if all(p == DEVNULL for p in paths):
+        return None, None, None, "none"
+    k = 0 if paths[1] == DEVNULL else 1
+    f, r, _ = read_dest(res, {"paths": [paths[k]], "interleaved": False})
+    return (f, r, None, "r1") if k == 0 else (f, None, r, "r2")
 
 
 def rid(name):
